@@ -9,4 +9,5 @@ func init() { hx.Register("C16", Run) }
 // Run: part A (flag word under every interleaving), then part B (threshold automaton of the active health checker).
 func Run(c *hx.Ctx) {
 	runFlags(c)
+	runChecker(c)
 }
